@@ -15,19 +15,6 @@ set_option linter.unusedSimpArgs false
 namespace Psi.Edges
 open Psi.Epochs
 
-theorem edges_pad (i0 : Bool) (s0in : Int) (m : Nat) (x : List Bool) :
-    edgesOf i0 (s0in - m) (List.replicate m i0 ++ x) = edgesOf i0 s0in x := by
-  rw [edgesOf_append, (edgesOf_replicate i0 m _).1, (edgesOf_replicate i0 m 0).2]
-  simp only [List.nil_append, List.length_replicate]
-  have : s0in - (m : Int) + (m : Int) = s0in := by omega
-  rw [this]
-
-theorem spans_length : ∀ (cs : List (List Bool)) (s : Int), (spans s cs).length = cs.length := by
-  intro cs
-  induction cs with
-  | nil => intro _; rfl
-  | cons c cs ih => intro s; simp [spans, ih]
-
 /-- **Main theorem.** On a clean stream the detector never raises and the block emitted for chunk
 `j` is exactly `specBlocks`: span `[s0_j, s0_j + n_j)` with `s0_0 = s0in - m`, and events = the
 transitions of the stream selected by `sel`: rising at `p` iff `s0_j < p ≤ s0_j + n_j`, falling at
@@ -195,13 +182,6 @@ theorem combineEvents_spec (b : Block) (bs : List Block) :
       combineEvents (b :: bs) = .ok ⟨(b :: bs).flatMap (·.events), b.start, lastStop b bs⟩) ∧
     (adjacent b.stop bs = false → combineEvents (b :: bs) = .error .valueError) := by
   constructor <;> intro h <;> simp [combineEvents, h]
-
-theorem adjacent_false_of_gap (b1 b2 : Block) (post : List Block) (h : b1.stop ≠ b2.start) :
-    ∀ (pre : List Block) (s0 : Int), adjacent s0 (pre ++ b1 :: b2 :: post) = false := by
-  intro pre
-  induction pre with
-  | nil => intro s0; simp [adjacent, Ne.symm h]
-  | cons p pre ih => intro s0; simp [adjacent, ih]
 
 /-- a gap or an overlap between two consecutive blocks anywhere in the list is rejected -/
 theorem combineEvents_rejects (b1 b2 : Block) (pre post : List Block) (h : b1.stop ≠ b2.start) :
